@@ -1,10 +1,12 @@
 package aof
 
 import (
+	"errors"
 	"fmt"
 	"hash/crc64"
 
 	"go.miragespace.co/specter/kv/aof/proto"
+	"go.miragespace.co/specter/spec/chord"
 
 	bufPool "github.com/libp2p/go-buffer-pool"
 	"go.uber.org/zap"
@@ -32,6 +34,15 @@ func (d *DiskKV) replayLogs() error {
 			return fmt.Errorf("error decoding entry to mutation at index %d: %w", i, err)
 		}
 		if err := d.handleMutation(mut); err != nil {
+			if i == index && i > 1 && errors.Is(err, chord.ErrKVPrefixConflict) {
+				// the last entry is a mutation that was rejected when it was first applied: the process stopped after
+				// appending it to the log and before rolling it back. It never took effect, finish the rollback.
+				if err := d.log.TruncateBack(i - 1); err != nil {
+					return fmt.Errorf("error rolling back rejected mutation at index %d: %w", i, err)
+				}
+				index = i - 1
+				break
+			}
 			return fmt.Errorf("error apply mutation to memory state at index %d: %w", i, err)
 		}
 		entry.Reset()
